@@ -33,7 +33,7 @@ fn check_poly_ops(name: &str, w: &Poly) -> Option<Violation> {
         Ok((h, back)) => {
             if canon(&h) != refmodel::ntt(w) {
                 Some(viol("ntt:differs", format!("ntt differs from Algorithm 41 (mod q) on {name}"), replay))
-            } else if back != canon(w) {
+            } else if canon(&back) != canon(w) {
                 Some(viol("inv_ntt:roundtrip", format!("inv_ntt(ntt(w)) != w mod q on {name}"), replay))
             } else if h.iter().any(|&c| i64::from(c).abs() >= 67_058_539) {
                 Some(viol("ntt:magnitude", format!("ntt output exceeds the bound to_mont documents (67058539) on {name}"), replay))
@@ -77,7 +77,7 @@ pub fn c18(cx: &Ctx, rep: &mut Report) {
             let replay = json!({"engine":"kernel","kernel":"pipeline_cs_monomials","i":i,"j":j,"c":c[i],"s":s});
             match guard(|| pipeline_cs(&c, &sp)) {
                 Err(pn) => Some(viol("pipeline:panic", format!("c*s pipeline panicked on {}*X^{i} * {s}*X^{j}: {}", c[i], pn.0), replay)),
-                Ok(got) => (got != refmodel::schoolbook_mul(&c, &sp)).then(|| viol("pipeline:monomial-product", format!("{}*X^{i} * {s}*X^{j} through ntt/pointwise/inv_ntt is not the negacyclic product", c[i]), replay)),
+                Ok(got) => (canon(&got) != refmodel::schoolbook_mul(&c, &sp)).then(|| viol("pipeline:monomial-product", format!("{}*X^{i} * {s}*X^{j} through ntt/pointwise/inv_ntt is not the negacyclic product", c[i]), replay)),
             }
         })
         .collect();
@@ -132,7 +132,7 @@ pub fn c18(cx: &Ctx, rep: &mut Report) {
                 let replay = json!({"engine":"kernel","kernel":"pipeline_cs","set":p.id,"challenge":ci,"secret":sn});
                 match guard(|| pipeline_cs(c, s)) {
                     Err(pn) => Some(viol("pipeline:panic", format!("ML-DSA-{} c*s pipeline panicked (challenge {ci}, {sn}): {}", p.id, pn.0), replay)),
-                    Ok(got) => (got != refmodel::schoolbook_mul(c, s)).then(|| viol("pipeline:product", format!("ML-DSA-{} c*s pipeline differs from the negacyclic product (challenge {ci}, {sn})", p.id), replay)),
+                    Ok(got) => (canon(&got) != refmodel::schoolbook_mul(c, s)).then(|| viol("pipeline:product", format!("ML-DSA-{} c*s pipeline differs from the negacyclic product (challenge {ci}, {sn})", p.id), replay)),
                 }
             })
             .collect();
